@@ -432,3 +432,171 @@ Proof.
 Qed.
 
 End Loop.
+
+(* ---------------------------------------------------------------- from the checker of the tgs facts to P *)
+
+Lemma count_line_zero l a : count_line l a = 0 -> forall i, nth_error l i <> Some a.
+Proof.
+  induction l as [|b r IH]; intros H i; simpl in *.
+  - destruct i; discriminate.
+  - destruct (bytes_eqb b a) eqn:E; [discriminate|].
+    destruct i; simpl.
+    + intro F. inversion F; subst. rewrite bytes_eqb_refl in E. discriminate.
+    + apply IH. lia.
+Qed.
+
+Lemma count_line_unique l a : count_line l a = 1 ->
+  forall i j, nth_error l i = Some a -> nth_error l j = Some a -> i = j.
+Proof.
+  induction l as [|b r IH]; intros H i j Hi Hj; simpl in *.
+  - discriminate.
+  - destruct (bytes_eqb b a) eqn:E.
+    + assert (Z : count_line r a = 0) by lia.
+      destruct i, j; simpl in *; auto.
+      * exfalso. eapply count_line_zero; eauto.
+      * exfalso. eapply count_line_zero; eauto.
+      * exfalso. eapply count_line_zero; eauto.
+    + destruct i; simpl in *.
+      { inversion Hi; subst. rewrite bytes_eqb_refl in E. discriminate. }
+      destruct j; simpl in *.
+      { inversion Hj; subst. rewrite bytes_eqb_refl in E. discriminate. }
+      f_equal. eapply IH; eauto.
+Qed.
+
+Lemma anchor_ok_anchor x y p : anchor_ok x y p = true -> anchor x y p.
+Proof.
+  unfold anchor_ok, anchor. intro H.
+  destruct (nth_error x (fst p)) as [a|] eqn:Ea; [|discriminate].
+  destruct (nth_error y (snd p)) as [b|] eqn:Eb; [|discriminate].
+  apply andb_true_iff in H as [H H3]. apply andb_true_iff in H as [H1 H2].
+  apply bytes_eqb_true_iff in H1. subst b. apply Nat.eqb_eq in H2, H3.
+  repeat split.
+  - apply nth_error_Some. congruence.
+  - apply nth_error_Some. congruence.
+  - congruence.
+  - intros i Hi. eapply count_line_unique; eauto.
+Qed.
+
+Lemma increasing_sorted x y (e : nat * nat) l :
+  increasing l = true -> Forall (fun p => le2 p e) l -> StronglySorted le2 (l ++ [e]).
+Proof.
+  induction l as [|p l IH]; intros Hi Hf; simpl.
+  - repeat constructor.
+  - inversion Hf; subst.
+    assert (Hi' : increasing l = true).
+    { destruct l; [reflexivity|]. simpl in Hi. apply andb_true_iff in Hi. tauto. }
+    specialize (IH Hi' H2). constructor; [assumption|].
+    destruct l as [|q l]; simpl.
+    + constructor; [assumption | constructor].
+    + simpl in Hi. apply andb_true_iff in Hi as [Hi _]. apply andb_true_iff in Hi as [L1 L2].
+      apply Nat.ltb_lt in L1, L2.
+      assert (Hpq : le2 p q) by (unfold le2; lia).
+      simpl in IH. inversion IH; subst.
+      constructor; [assumption|].
+      eapply Forall_impl; [|eassumption]. intros r Hr. unfold le2 in *. lia.
+Qed.
+
+(* the shape and the facts the checker establishes *)
+Definition matches_ok (x y : list line) (ms : list (nat * nat)) : Prop :=
+  exists inner, ms = (0, 0) :: inner ++ [(length x, length y)] /\
+    Forall (fun p => anchor_ok x y p = true) inner /\ increasing inner = true.
+
+Lemma tgs_ok_list_matches_ok x y ms : tgs_ok_list x y ms = true <-> matches_ok x y ms.
+Proof.
+  unfold tgs_ok_list, matches_ok. split.
+  - intro H. destruct ms as [|[[|?] [|?]] r]; try discriminate.
+    destruct (rev r) as [|[a b] ri] eqn:Er; [discriminate|].
+    apply andb_true_iff in H as [H H4]. apply andb_true_iff in H as [H H3].
+    apply andb_true_iff in H as [H1 H2]. apply Nat.eqb_eq in H1, H2. subst a b.
+    exists (rev ri). split.
+    + f_equal. rewrite <- (rev_involutive r), Er. reflexivity.
+    + split; [|assumption]. apply Forall_forall. apply forallb_forall. assumption.
+  - intros (inner & -> & Hf & Hi).
+    rewrite rev_app_distr. simpl. rewrite rev_involutive, !Nat.eqb_refl, Hi. simpl.
+    rewrite andb_true_r. apply forallb_forall. apply Forall_forall. assumption.
+Qed.
+
+Lemma matches_ok_P x y ms : matches_ok x y ms -> P x y 0 0 ms.
+Proof.
+  intros (inner & -> & Hf & Hi).
+  assert (Ha : Forall (anchor x y) inner).
+  { eapply Forall_impl; [|exact Hf]. intros p. apply anchor_ok_anchor. }
+  assert (Hle : Forall (fun p => le2 p (length x, length y)) inner).
+  { eapply Forall_impl; [|exact Ha]. intros p (A1 & A2 & _). unfold le2. simpl. lia. }
+  unfold P. split; [discriminate|]. split.
+  { change ((0, 0) :: inner ++ [(length x, length y)]) with (((0, 0) :: inner) ++ [(length x, length y)]).
+    apply last_last. }
+  split; [|split].
+  - constructor; [simpl; lia|]. apply Forall_app. split.
+    + eapply Forall_impl; [|exact Ha]. intros p (A1 & A2 & _). lia.
+    + constructor; [simpl; lia | constructor].
+  - constructor.
+    + apply increasing_sorted; assumption.
+    + apply Forall_forall. intros p _. unfold le2. simpl. lia.
+  - simpl. apply Forall_app. split.
+    + eapply Forall_impl; [|exact Ha]. intros p Hp. left. assumption.
+    + constructor; [right; reflexivity | constructor].
+Qed.
+
+(* ---------------------------------------------------------------- the main result about the loop *)
+
+Lemma diff_loop_matches_ok x y ms : matches_ok x y ms ->
+  exists hs, diff_loop x y ms 0 0 0 0 0 0 [] = Ok hs /\ hunks_rel 0 0 x y hs.
+Proof.
+  intro H. apply matches_ok_P in H.
+  destruct (diff_loop_ok x y ms 0 0 0 0 0 0 0 0 []) as (hs & E & R); [|assumption|].
+  - unfold Inv. rewrite !sub_nil. simpl. repeat split; lia.
+  - exists hs. split; assumption.
+Qed.
+
+(* everything the property says follows from [hunks_rel] *)
+Lemma hunks_rel_consequences x y hs : hunks_rel 0 0 x y hs ->
+  hunks_wf x y hs /\ apply_hunks x hs = Some y /\ apply_hunks y (swap_hunks hs) = Some x.
+Proof.
+  intro H. split; [|split].
+  - apply wf_from_rel; simpl; try lia. exact H.
+  - apply apply_from_rel. exact H.
+  - apply apply_from_rel. apply hunks_rel_swap. exact H.
+Qed.
+
+(* ---------------------------------------------------------------- the theorems under [tgs_ok] *)
+
+Theorem diff_hunks_rel_partial x y : tgs_ok x y = true ->
+  exists hs, diff_hunks x y = Ok hs /\ hunks_rel 0 0 x y hs.
+Proof.
+  unfold tgs_ok, diff_hunks. intro H.
+  destruct (tgs x y) as [ms| |]; try discriminate. simpl.
+  apply diff_loop_matches_ok. apply tgs_ok_list_matches_ok. assumption.
+Qed.
+
+Theorem diff_no_panic_partial x y : tgs_ok x y = true -> exists hs, diff_hunks x y = Ok hs.
+Proof. intro H. destruct (diff_hunks_rel_partial x y H) as (hs & E & _). eauto. Qed.
+
+Theorem hunks_wf_partial x y hs : tgs_ok x y = true -> diff_hunks x y = Ok hs -> hunks_wf x y hs.
+Proof.
+  intros H E. destruct (diff_hunks_rel_partial x y H) as (hs' & E' & R).
+  assert (hs' = hs) by congruence. subst. apply hunks_rel_consequences. assumption.
+Qed.
+
+Theorem patch_correct_partial x y hs :
+  tgs_ok x y = true -> diff_hunks x y = Ok hs -> apply_hunks x hs = Some y.
+Proof.
+  intros H E. destruct (diff_hunks_rel_partial x y H) as (hs' & E' & R).
+  assert (hs' = hs) by congruence. subst. apply hunks_rel_consequences. assumption.
+Qed.
+
+Theorem patch_reverse_partial x y hs :
+  tgs_ok x y = true -> diff_hunks x y = Ok hs -> apply_hunks y (swap_hunks hs) = Some x.
+Proof.
+  intros H E. destruct (diff_hunks_rel_partial x y H) as (hs' & E' & R).
+  assert (hs' = hs) by congruence. subst. apply hunks_rel_consequences. assumption.
+Qed.
+
+(* Diff returns nothing exactly when the texts are byte-identical (needs nothing of tgs) *)
+Theorem diff_nil_iff oldName old newName new : diff oldName old newName new = Ok [] <-> old = new.
+Proof.
+  unfold diff. split.
+  - destruct (bytes_eqb old new) eqn:E; [intros _; apply bytes_eqb_true_iff; assumption|].
+    destruct (diff_hunks (lines old) (lines new)); simpl; discriminate.
+  - intros ->. rewrite bytes_eqb_refl. reflexivity.
+Qed.
